@@ -46,6 +46,14 @@ func (e *Engine) typeSpecOf(fn *ssa.Function) (*TypeSpec, *types.Named) {
 
 // VerifyFunc generates all obligations of one function under contract.
 func (e *Engine) VerifyFunc(key string) {
+	e.verifyFunc(key, false)
+	if fs := e.contracts.Funcs[key]; fs != nil && (len(fs.IEnsures) > 0 || fs.Flags["interfered"]) && e.funcs[key] != nil {
+		// interference pass: guarded state is havocked (under the lock invariant) at every Lock
+		e.verifyFunc(key, true)
+	}
+}
+
+func (e *Engine) verifyFunc(key string, interf bool) {
 	fs := e.contracts.Funcs[key]
 	fn := e.funcs[key]
 	if fn == nil {
@@ -56,6 +64,7 @@ func (e *Engine) VerifyFunc(key string) {
 	}
 	fc := &fnCtx{e: e, fn: fn, key: key, spec: fs, regionSort: map[string]string{}, closures: map[string]*closureInfo{}}
 	fc.pkg = key[:strings.Index(key, ".")]
+	fc.interf = interf
 	fc.eff = e.effective(fs, key)
 	fc.safeMode = fc.eff.flags["safe"]
 	e.installHooks(fc)
@@ -130,6 +139,9 @@ func (e *Engine) VerifyFunc(key string) {
 	if ts != nil && !fc.eff.flags["noinv"] {
 		sc := fc.specCtxFor(st, fr)
 		for _, inv := range ts.Invariants {
+			if fc.interf && mentionsGuarded(ts, inv.Text) {
+				continue // quiescent-state invariant: other threads may be in the middle of an operation
+			}
 			if g := fc.evalBoolClause(sc, inv, ""); g != "" {
 				st.pc = append(st.pc, g)
 			}
@@ -237,6 +249,16 @@ func (fc *fnCtx) specCtxForClause(st *State, fr *frame, c effClause) *specCtx {
 	return sc
 }
 
+// mentionsGuarded: does the clause text name a field that is declared guarded_by a mutex?
+func mentionsGuarded(ts *TypeSpec, text string) bool {
+	for f := range ts.GuardedBy {
+		if strings.Contains(text, "."+f) {
+			return true
+		}
+	}
+	return false
+}
+
 func (fc *fnCtx) postName(c effClause, kind string) string {
 	if c.owner == fc.spec {
 		return fmt.Sprintf("%s.%s%d", fc.key, kind, c.Ord)
@@ -255,6 +277,17 @@ func (fc *fnCtx) atReturn(st *State, fr *frame, res []Val, ts *TypeSpec) {
 	}
 	fc.emitQ(st, fc.key+".smoke.return@"+blk, "smoke", "the return statement is reachable under the assumptions", "", "false", nil, true)
 	fc.runDefers(st, fr, func(st *State) {
+		if fc.interf {
+			for _, en := range fc.spec.IEnsures {
+				sc := fc.specCtxFor(st, fr)
+				sc.result = res
+				name := fmt.Sprintf("%s.ipost%d", fc.key, en.Ord)
+				if g := fc.evalBoolClause(sc, en, name); g != "" {
+					fc.emit(st, name, "ipost", en.Text, clauseLoc(en), g, en.Tags)
+				}
+			}
+			return
+		}
 		for _, en := range fc.eff.ensures {
 			sc := fc.specCtxForClause(st, fr, en)
 			sc.result = res
